@@ -7,6 +7,7 @@ from itertools import zip_longest
 from typing import Any, Dict, Generator, List, Optional, Tuple, Union
 
 from ruamel.yaml.comments import CommentedMap, CommentedSeq, CommentedSet
+from ruamel.yaml.scalarbool import ScalarBoolean
 
 from yamlpath import YAMLPath
 from yamlpath.wrappers import ConsolePrinter, NodeCoords
@@ -204,7 +205,7 @@ class Differ:
                 rhs_val = self._eyamlproc.decrypt_eyaml(rhs)
                 rhs = rhs.replace("\r", "").replace(" ", "")
 
-        if lhs_val == rhs_val:
+        if Differ._same_data(lhs_val, rhs_val):
             self._diffs.append(
                 DiffEntry(DiffActions.SAME, path, lhs, rhs, **kwargs)
             )
@@ -431,8 +432,8 @@ class Differ:
             else:
                 self._diffs.append(
                     DiffEntry(
-                        DiffActions.CHANGE if lele != rele
-                        else DiffActions.SAME, next_path, lele, rele,
+                        DiffActions.SAME if Differ._same_data(lele, rele)
+                        else DiffActions.CHANGE, next_path, lele, rele,
                         lhs_parent=lhs, lhs_iteration=idx,
                         rhs_parent=rhs, rhs_iteration=idx,
                         parentref=idx))
@@ -522,7 +523,7 @@ class Differ:
                     # KEY-based comparisons
                     next_path = path + "[{}]".format(lidx)
                     diff_action = (DiffActions.SAME
-                                  if lele == rele
+                                  if Differ._same_data(lele, rele)
                                   else DiffActions.CHANGE)
                     self._diffs.append(
                         DiffEntry(diff_action, next_path, lele, rele,
@@ -723,6 +724,39 @@ class Differ:
             self._add_everything(path, rhs)
 
     @classmethod
+    def _same_data(cls, lhs: Any, rhs: Any) -> bool:
+        """
+        Indicate whether two nodes hold the same data.
+
+        The order of Hash keys is not data and a Boolean is not a number, no
+        matter that Python deems `True == 1`.
+
+        Parameters:
+        1. lhs (Any) The left-hand-side (original) node
+        2. rhs (Any) The right-hand-side (altered) node
+
+        Returns:  (bool) True = both nodes are the same data
+        """
+        if isinstance(lhs, dict) and isinstance(rhs, dict):
+            return len(lhs) == len(rhs) and all(
+                key in rhs and cls._same_data(val, rhs[key])
+                for key, val in lhs.items())
+        if (isinstance(lhs, (CommentedSet, set))
+            and isinstance(rhs, (CommentedSet, set))
+        ):
+            return set(lhs) == set(rhs)
+        if isinstance(lhs, list) and isinstance(rhs, list):
+            return len(lhs) == len(rhs) and all(
+                cls._same_data(lele, rele) for lele, rele in zip(lhs, rhs))
+        complex_types = (dict, list, CommentedSet, set)
+        if isinstance(lhs, complex_types) or isinstance(rhs, complex_types):
+            return False
+        return bool(
+            lhs == rhs
+            and isinstance(lhs, (bool, ScalarBoolean))
+                == isinstance(rhs, (bool, ScalarBoolean)))
+
+    @classmethod
     def synchronize_lists_by_value(
         cls, lhs: CommentedSeq, rhs: CommentedSeq
     ) -> List[Tuple[
@@ -752,7 +786,7 @@ class Differ:
             del_index = -1
             for reduced_idx, rhs_pair in enumerate(rhs_reduced):
                 (_, rhs_ele) = rhs_pair
-                if rhs_ele == lhs_ele:
+                if cls._same_data(lhs_ele, rhs_ele):
                     del_index = reduced_idx
                     break
 
